@@ -606,7 +606,7 @@ def linked_kernels(build):
 
 
 def check_C14(ctx):
-    import random, concurrent.futures as cf
+    import re, random, concurrent.futures as cf
     from verif import sh
     q = ctx.tier == 'quick'
     rng = random.Random(ctx.seed)
@@ -617,6 +617,21 @@ def check_C14(ctx):
     # thorough: every configure option variant and every x86-64 CPU directory of configure.ac
     variants = ['default', 'none', 'fat'] + ['cpu-' + c for c in rng.sample(CPU_VARIANTS, 1)] if q else \
                ['default'] + OPTION_VARIANTS + ['cpu-' + c for c in CPU_VARIANTS]
+    if q:
+        # quick = what one runs on every change: besides the seeded directory, every CPU directory (and option) that the working tree's uncommitted or
+        # latest committed change touches is built and driven as well (at most three); without git information (a plain copy) only the seeded one
+        touched = []
+        try:
+            repo = os.environ.get('VERIF_REPO', '/repo')
+            rc1, o1 = sh(['git', '-C', repo, 'status', '--porcelain'], timeout=60); rc2, o2 = sh(['git', '-C', repo, 'diff', '--name-only', 'HEAD~1', 'HEAD'], timeout=60)
+            names = ([l[3:].strip() for l in o1.splitlines()] if rc1 == 0 else []) + (o2.splitlines() if rc2 == 0 else [])
+            for nme in names:
+                mm = re.match(r'mpn/x86_64/([a-z0-9]+)/', nme)
+                if mm and mm.group(1) in CPU_VARIANTS and 'cpu-' + mm.group(1) not in variants + touched: touched.append('cpu-' + mm.group(1))
+                if nme.startswith('mpn/x86_64/fat/') or nme == 'mpn/x86_64/x86_64-defs.m4': pass
+        except Exception: touched = []
+        variants += touched[:3]
+        if touched: ctx.notes.append('CPU directories touched by the working tree\'s change, added to the quick tier: ' + ' '.join(touched[:3]))
     battery = [(d, 1 if q else n) for d, n in BATTERY if not q or d not in ('c01_mpz', 'c02_mpz', 'c07_mpz', 'c08_powm')]
     builds = {}; pairs = set(); not_exec = []; thr_seen = {}; all_paths = []
     import threading; lock = threading.Lock()
